@@ -133,11 +133,13 @@ def parse_output(out, res):
 
 
 def run_one(module, cfg_path, workers, tag, env_extra=None, timeout=3600, coverage=True,
-            simulate=None, extra_args=(), heap="3g", deque=False):
+            simulate=None, extra_args=(), heap="3g", deque=False, tla_library=None):
     meta = os.path.join(scratch(), "meta-%s-%d" % (tag, int(time.time() * 1e6) % 10 ** 9))
-    cmd = ["java", "-Xmx" + heap, "-XX:+UseParallelGC"]
+    cmd = ["java", "-Xmx" + heap, "-Xss64m", "-XX:+UseParallelGC"]
     if deque:
         cmd.append("-Dtlc2.tool.queue.IStateQueue=StateDeque")
+    if tla_library:
+        cmd.append("-DTLA-Library=" + tla_library)
     cmd += ["-cp", JAR + ":" + DEPS, "tlc2.TLC", "-workers", str(workers), "-metadir", meta,
             "-noGenerateSpecTE", "-continue", "-config", cfg_path]
     if coverage:
